@@ -861,8 +861,8 @@ def am2angles(a: np.ndarray, m: np.ndarray, in_deg: bool = False) -> np.ndarray:
     if m.ndim < 2:
         m = np.atleast_2d(m)
     # Normalization of 2D arrays
-    a /= np.linalg.norm(a, axis=1)[:, None]
-    m /= np.linalg.norm(m, axis=1)[:, None]
+    a = a / np.linalg.norm(a, axis=1)[:, None]
+    m = m / np.linalg.norm(m, axis=1)[:, None]
     angles = np.zeros((len(a), 3))   # Allocation of angles array
     # Estimate tilt angles
     angles[:, 0] = np.arctan2(a[:, 1], a[:, 2])
